@@ -13,6 +13,7 @@ import Tetl.Proto
 import Tetl.C01.Model
 import Tetl.C01.Step
 import Tetl.C01.Spec
+import Tetl.C01.Observe
 namespace Tetl.C01.Driver
 open Tetl Tetl.Proto
 
@@ -25,17 +26,39 @@ def fmtOut : Out → String
   | .ref x => s!"ref={x}"
   | .rels bs => "rel=" ++ String.join (bs.map fmtBool)
 
-/-- the observers of one object, through the model's own accessors -/
-def fmtObj (cap : Nat) (d : V) : String :=
-  let fb := match front d, back d with
+/-- one object of the spec: the list itself -/
+def fmtSpecObj (cap : Nat) (l : List Nat) : String :=
+  let fb := match l.head?, l.getLast? with
+    | some a, some b => s!"{a}/{b}"
+    | _, _ => "-"
+  s!"n={l.length} e={fmtBool l.isEmpty} f={fmtBool (l.length == cap)} d={fmtNatList l} fb={fb}"
+
+/-- one object of the model, looked at only through the observer models of Observe.lean — the same calls the
+    harness makes: `size()`, `empty()`, `full()`, a `begin()..end()` walk, `front()` / `back()` (`top()` for a stack),
+    and, as cross-check flags, `operator[]` at every index, `data()[i]` and the `rbegin()..rend()` walk.
+    The capacity-0 storages answer with their constants. -/
+def fmtObj (ty : Ty) (cap : Nat) (d : V) : String :=
+  let n := if cap = 0 then zeroSize else (if ty = .stk then stkSize d else size d)
+  let e := if cap = 0 then zeroEmpty else (if ty = .stk then stkEmpty d else empty d)
+  let f := if cap = 0 then zeroFull else full cap d
+  let fr := match ty with | .ipv => ipvFront d | _ => svFront d
+  let bk := match ty with | .ipv => ipvBack d | .sv => svBack d | .stk => stkTop d
+  let fb := match fr, bk with
     | .ok a, .ok b => s!"{a}/{b}"
     | _, _ => "-"
-  s!"n={d.length} e={fmtBool d.isEmpty} f={fmtBool (d.length == cap)} d={fmtNatList d} fb={fb}"
+  match iterate d with
+  | .error _ => s!"n={n} e={fmtBool e} f={fmtBool f} d=? fb={fb}@walk"
+  | .ok els =>
+    let byIdx := (List.range els.length).map (fun i => (match ty with | .ipv => ipvIndex d i | _ => svIndex d i, dataAt d i))
+    let idxOk := (byIdx.zip els).all (fun p => match p.1.1, p.1.2 with | .ok a, .ok b => a == p.2 && b == p.2 | _, _ => false)
+    let revOk := match riterate d with | .ok r => r == els.reverse | .error _ => false
+    let flags := (if els.length == n then "" else "@size") ++ (if idxOk then "" else "@idx") ++ (if revOk then "" else "@rev")
+    s!"n={n} e={fmtBool e} f={fmtBool f} d={fmtNatList els} fb={fb}{flags}"
 
-def fmtSys (cap : Nat) (objs : List V) : String := ";".intercalate (objs.map (fmtObj cap))
+def fmtSys (ty : Ty) (cap : Nat) (objs : List V) : String := ";".intercalate (objs.map (fmtObj ty cap))
 
 def fmtSpecSys (cap : Nat) (objs : List Spec.SObj) : Option String :=
-  (objs.mapM id).map (fun l => fmtSys cap l)
+  (objs.mapM id).map (fun l => ";".intercalate (l.map (fmtSpecObj cap)))
 
 structure St where
   sys : Option (Sys × Spec.SSys) := none
@@ -62,6 +85,7 @@ def parseKind (l : Line) : Option Kind :=
   match l.str? "kind" with
   | some "int" => some .triv
   | some "nt" => some .nt
+  | some "hd" => some .hd
   | _ => none
 
 def parseOpNamed (name : String) (l : Line) : Option Op :=
@@ -132,9 +156,9 @@ def step (st : St) (l : Line) : St × String :=
     | some ty, some cap, some kind, some ini =>
       let s := Sys.init ty cap kind
       let sp := Spec.SSys.init cap
-      let specStr := "new;" ++ fmtSys cap s.objs
+      let specStr := "new;" ++ ((fmtSpecSys cap sp.objs).getD "*")
       let n0 := initSize ty cap ini
-      if n0 = 0 then ({ sys := some (s, sp) }, "new;" ++ fmtSys cap s.objs ++ "\t" ++ specStr)
+      if n0 = 0 then ({ sys := some (s, sp) }, "new;" ++ fmtSys ty cap s.objs ++ "\t" ++ specStr)
       else
         -- indeterminate size: the four objects report it; nothing else can be observed
         let o := s!"n={n0} e=0 f={fmtBool (n0 == cap)} d=? fb=?"
@@ -142,8 +166,17 @@ def step (st : St) (l : Line) : St × String :=
     | _, _, _, _ => bad
   | "api_bits" =>
     match parseTy l, l.nat? "cap", parseKind l with
-    | some ty, some cap, some _ => (st, apiModel ty cap ++ "\t*")
+    | some ty, some cap, some _ => (st, apiModel ty cap ++ s!"\tbits={Spec.minBits cap}")
     | _, _, _ => bad
+  | "api_width" =>
+    -- `smallest_size_t<N>` alone (no container): the generated chain against "the smallest type that fits"
+    match l.nat? "cap" with
+    | some cap => (st, s!"bits={smallestBits cap}\tbits={Spec.minBits cap}")
+    | none => bad
+  | "api_abi" =>
+    -- the widths the model assumes for the types the chain names (CTy.bits), against the compiler's sizeof
+    (st, s!"uchar={CTy.uchar.bits} ushort={CTy.ushort.bits} uint={CTy.uint.bits} ulong={CTy.ulong.bits} " ++
+         s!"ulonglong={CTy.ulonglong.bits}\t*")
   | "api_assign" =>
     match parseTy l, l.nat? "cap", parseKind l with
     | some ty, some cap, some _ => (st, apiAssignModel ty ++ "\t" ++ apiSpec ty cap)
@@ -170,7 +203,7 @@ def step (st : St) (l : Line) : St × String :=
         | _, _ => "*"
       match C01.step s k op with
       | .ok (s', o) =>
-        ({ sys := some (s', r.1) }, fmtOut o ++ ";" ++ fmtSys s.cap s'.objs ++ "\t" ++ specStr)
+        ({ sys := some (s', r.1) }, fmtOut o ++ ";" ++ fmtSys s.ty s.cap s'.objs ++ "\t" ++ specStr)
       | .error e => ({ sys := some (s, r.1) }, "err:" ++ e.fmt ++ "\t" ++ specStr)
     | _, _ => bad
 
